@@ -1,9 +1,15 @@
 (* Model of langserver/check/common/file_index_info.go (FileIndexInfo: InsertOneFile,
    RemoveOneFile, GetFileNameMap, GetPreFileNameMap) and of common/util.go:
-   CompleteFilePathToPreStr, plus the byte-string helpers (strings.Split / Index /
+   LuaSuffixIndex / CompleteFilePathToPreStr, plus the byte-string helpers (strings.Split / Index /
    LastIndex / HasSuffix / Replace) shared by ModulePath.v and Merge.v.
    Paths are byte strings (list N). Go maps are association lists; only lookups are
-   observable (iteration order is an explicit parameter where it matters: Merge.v). *)
+   observable (iteration order is an explicit parameter where it matters: Merge.v).
+   Every function that cuts a name at "its suffix" takes the boolean sfx:
+     sfx = false: the code before fixes/C18-dotted-path.diff (1473636) - the FIRST '.' of the string (of the whole path for
+                  CompleteFilePathToPreStr, of the file name for the key of the second map);
+     sfx = true : the repaired code (common.LuaSuffixIndex) - a final ".lua" is the suffix; any other (associated) file
+                  type is cut at the first '.' of its FILE NAME; directories never matter.
+   stem_deployed says which of the two the code in /repo is. *)
 From Coq Require Import List NArith Bool.
 From LH Require Import Base.Bytes.
 Import ListNotations.
@@ -65,9 +71,28 @@ Fixpoint last_index (sub s : list N) : option nat :=
 Definition replace_byte (a b : N) (s : list N) : list N :=
   map (fun x => if x =? a then b else x) s.
 
-(* common.CompleteFilePathToPreStr: the text before the FIRST '.' of the whole path, "" if none *)
+(* common.CompleteFilePathToPreStr before the repair: the text before the FIRST '.' of the whole path, "" if none *)
 Definition complete_pre (p : list N) : list N :=
   match index_byte dot p with Some i => firstn i p | None => [] end.
+
+(* where the suffix of a file name / of a path begins (common.LuaSuffixIndex for sfx = true; strings.Index(s, ".")
+   for sfx = false), None = -1 *)
+Definition suffix_index (sfx : bool) (p : list N) : option nat :=
+  if sfx then
+    if is_suffix lua_ext p then Some (Nat.sub (length p) 4)
+    else match index_byte dot (last_seg p) with
+         | Some i => Some (Nat.add (Nat.sub (length p) (length (last_seg p))) i)
+         | None => None
+         end
+  else index_byte dot p.
+
+(* common.CompleteFilePathToPreStr: the path without its suffix, "" if it has none *)
+Definition complete_pre_fx (sfx : bool) (p : list N) : list N :=
+  match suffix_index sfx p with Some i => firstn i p | None => [] end.
+
+(* which variant the code in /repo is (fixes/C18-dotted-path.diff applied = true): the one constant the OCaml drivers
+   of C18 and C09 read *)
+Definition stem_deployed : bool := true.
 
 (* ---- association lists standing for Go maps keyed by strings ---- *)
 Definition amap (V : Type) := list (list N * V).
@@ -112,30 +137,30 @@ Definition inner_del (outer : amap (amap (list N))) (name key : list N) :=
   | None => outer
   end.
 
-Definition idx_insert (f : list N) (st : idx) : idx :=
+Definition idx_insert (sfx : bool) (f : list N) (st : idx) : idx :=
   let name := last_seg f in
-  let pre := complete_pre f in
+  let pre := complete_pre_fx sfx f in
   let bn := inner_set (by_name st) name f pre in
-  match index_byte dot name with
+  match suffix_index sfx name with
   | None => mk_idx bn (by_pre st)
   | Some i => mk_idx bn (inner_set (by_pre st) (firstn i name) f pre)
   end.
 
-(* RemoveOneFile as written today: the inner maps are keyed by FULL PATH but the code deletes the key
-   `fileName` (resp. `preStr`) from them. *)
-Definition idx_remove (f : list N) (st : idx) : idx :=
+(* RemoveOneFile as first written (before work/fixes/C18-remove-key.diff, commit ec76861): the inner maps are keyed by
+   FULL PATH but the code deleted the key `fileName` (resp. `preStr`) from them. *)
+Definition idx_remove (sfx : bool) (f : list N) (st : idx) : idx :=
   let name := last_seg f in
   let bn := inner_del (by_name st) name name in
-  match index_byte dot name with
+  match suffix_index sfx name with
   | None => mk_idx bn (by_pre st)
   | Some i => let p := firstn i name in mk_idx bn (inner_del (by_pre st) p p)
   end.
 
 (* the repaired variant (work/fixes/C18-remove-key.diff): delete(valeMap, strFile) in both maps *)
-Definition idx_remove_fixed (f : list N) (st : idx) : idx :=
+Definition idx_remove_fixed (sfx : bool) (f : list N) (st : idx) : idx :=
   let name := last_seg f in
   let bn := inner_del (by_name st) name f in
-  match index_byte dot name with
+  match suffix_index sfx name with
   | None => mk_idx bn (by_pre st)
   | Some i => mk_idx bn (inner_del (by_pre st) (firstn i name) f)
   end.
@@ -149,10 +174,16 @@ Definition get_pre_map (st : idx) (name : list N) : amap (list N) :=
 (* ---- histories ---- *)
 Inductive op := Ins (p : list N) | Rem (p : list N).
 
-Definition idx_step (st : idx) (o : op) : idx :=
-  match o with Ins p => idx_insert p st | Rem p => idx_remove p st end.
-Definition idx_step_fixed (st : idx) (o : op) : idx :=
-  match o with Ins p => idx_insert p st | Rem p => idx_remove_fixed p st end.
+Definition idx_step_g (sfx : bool) (st : idx) (o : op) : idx :=
+  match o with Ins p => idx_insert sfx p st | Rem p => idx_remove sfx p st end.
+Definition idx_step_fixed_g (sfx : bool) (st : idx) (o : op) : idx :=
+  match o with Ins p => idx_insert sfx p st | Rem p => idx_remove_fixed sfx p st end.
 
-Definition idx_run (ops : list op) : idx := fold_left idx_step ops idx_empty.
-Definition idx_run_fixed (ops : list op) : idx := fold_left idx_step_fixed ops idx_empty.
+Definition idx_run_g (sfx : bool) (ops : list op) : idx := fold_left (idx_step_g sfx) ops idx_empty.
+Definition idx_run_fixed_g (sfx : bool) (ops : list op) : idx := fold_left (idx_step_fixed_g sfx) ops idx_empty.
+
+(* the deployed variants (what the drivers run) *)
+Definition idx_step : idx -> op -> idx := idx_step_g stem_deployed.
+Definition idx_step_fixed : idx -> op -> idx := idx_step_fixed_g stem_deployed.
+Definition idx_run : list op -> idx := idx_run_g stem_deployed.
+Definition idx_run_fixed : list op -> idx := idx_run_fixed_g stem_deployed.
